@@ -275,29 +275,11 @@ def run(ctx):
                   and ast.unparse(c.args[0]) == "self._get_state_path()" for c in _calls(init_t.node))
     r2.check(load_ok, f"{init_t.module.relpath}::{init_t.qual}", "tracked ids are loaded from self._get_state_path()",
              "tracked ids are not loaded from the backend's state path", init_t.where)
-    dump_obj = None
-    for c in _calls(close_m.node):
-        if isinstance(c.func, (ast.Name, ast.Attribute)) and idx.canon(c.func, close_m.module) == "json.dump" and c.args:
-            dump_obj = c.args[0]
-    ok = False
-    why = "close() does not json.dump anything"
-    if dump_obj is not None:
-        t = ast.unparse(dump_obj)
-        if t in ("self._tracked_jobs", "dict(self._tracked_jobs)"):
-            ok = True
-        elif isinstance(dump_obj, ast.Name):
-            assigns = [n for n in walk_no_nested(close_m.node) if isinstance(n, ast.Assign) and any(isinstance(x, ast.Name) and x.id == dump_obj.id for x in n.targets)]
-            muts = [c for c in _calls(close_m.node) if isinstance(c.func, ast.Attribute) and dotted(c.func.value) == dump_obj.id
-                    and c.func.attr in ("update", "pop", "clear", "setdefault", "popitem")]
-            muts += [n for n in walk_no_nested(close_m.node) if isinstance(n, (ast.Assign, ast.Delete)) and any(
-                isinstance(x, ast.Subscript) and dotted(x.value) == dump_obj.id for x in (n.targets if hasattr(n, "targets") else []))]
-            if len(assigns) == 1 and ast.unparse(assigns[0].value) in ("self._tracked_jobs", "dict(self._tracked_jobs)", "self._tracked_jobs.copy()") and not muts:
-                ok = True
-            else:
-                why = f"close() saves `{dump_obj.id}`, which is not (a plain copy of) the in-memory job table: ids recorded by this invocation can be lost or replaced"
-        else:
-            why = f"close() saves `{t[:60]}` instead of the in-memory job table"
-    r2.check(ok, f"{close_m.module.relpath}::{close_m.qual}::dump", "the in-memory job table is what is saved", why, close_m.where)
+    from .c07 import rule_tracked_dump
+    from .persist import rule_close_writes, rule_exit_persists
+    rule_tracked_dump(ctx, r2)
+    rule_exit_persists(ctx, r2)
+    rule_close_writes(ctx, r2)
     sp_m = idx.method(tb, "_get_state_path")
     sp_txt = ast.unparse(sp_m.node)
     r2.check(".gwf" in sp_txt and "self.name" in sp_txt and "self.working_dir" in sp_txt, f"{sp_m.module.relpath}::{sp_m.qual}",
